@@ -13,7 +13,7 @@ func init() {
 	register(&Driver{
 		ID:        "C05",
 		Technique: "exhaustive enumeration of dependency graphs x lazy/eager assignments x observing post-processor sets x iteration orders, each a real start; event-log oracle (exactly-once lifecycle sequence, population before before-init, dependencies initialised first, lazy only on demand)",
-		Rule:      "programs = labelled 3-node graphs over {none, by-name, slice member} x lazy flag per node x {0,1,2} observing processors x base order, one configuration slot per node; non-trivial = has an edge and (a lazy node or a cycle or fan-in >= 2)",
+		Rule:      "programs = labelled 3-node graphs over {none, by-name, slice member} x lazy flag per node x {0,1,2} observing processors x base order, one configuration slot per node; non-trivial = has an edge and (a lazy node or a cycle or fan-in >= 2). Families added in later rounds (look-ups inside Init, retries after an abandoned attempt, user extension points at every Order, several containers, odd names / types / values) are listed per part in this file and described in MANIFEST.json (level_claimed.text) and DESIGN §7",
 		Assumptions: []string{
 			"post-processors in this family only observe (a substituting processor legitimately moves the init calls to the substitute: C03's territory)",
 			"n <= 3 (thorough: 4 over two edge kinds)",
